@@ -185,6 +185,8 @@ def call_builtin(eng, name, args, kwargs, st, node):
             return outs
         if v.k == 'seq':
             return [(st, vint(v.extra['len']))]
+        if v.k == 'list' and v.items is None and v.extra and 'seq' in v.extra:
+            return [(st, vint(v.extra['seq'].extra['len']))]
         if v.k == 'obj' and eng.contract.opts.get('opaque_algebra'):
             n = eng.fresh('len', z3.IntSort())
             st.pc.append(n >= 0)
